@@ -32,10 +32,10 @@ type CtrlSpec struct {
 	// 7 the same, a returns a map at run time: the check fails, in every paradigm
 	// 8 a : string -> map[string]any {x: string, y: {z: string}} -> MapFields(x -> y) -> b  (the target field name is
 	//   also a field of the source, of another type: the check must see the MAPPED value)
-	Shape  int     `json:"shape"`
-	Nat    [4]bool `json:"nat"`    // natives of b (of the node inside the nested graph for shape 4)
-	NChunk int     `json:"nchunk"` // chunks b's S / T natives deliver (1-3, one of them empty)
-	Pipe   bool    `json:"pipe,omitempty"`
+	Shape  int      `json:"shape"`
+	Nat    [4]bool  `json:"nat"`    // natives of b (of the node inside the nested graph for shape 4)
+	NChunk int      `json:"nchunk"` // chunks b's S / T natives deliver (1-3, one of them empty)
+	Pipe   bool     `json:"pipe,omitempty"`
 	In     []string `json:"in"` // the caller's input chunks (Invoke / Stream get their concatenation)
 }
 
@@ -99,7 +99,10 @@ func ctrlLambda[I any](sp *CtrlSpec, rec *recorder) *compose.Lambda {
 		return concatAny(cs)
 	}
 	if sp.Nat[0] {
-		fi = func(ctx context.Context, in I, _ ...any) (string, error) { rec.add(1, "I"); return ctrlShow(any(in)), nil }
+		fi = func(ctx context.Context, in I, _ ...any) (string, error) {
+			rec.add(1, "I")
+			return ctrlShow(any(in)), nil
+		}
 	}
 	if sp.Nat[1] {
 		fs = func(ctx context.Context, in I, _ ...any) (*schema.StreamReader[string], error) {
@@ -263,7 +266,9 @@ func runCtrl(c *Case) lib.Result {
 	for _, s := range sp.In {
 		whole += s
 	}
-	inStream := func() *schema.StreamReader[string] { return schema.StreamReaderFromArray(append([]string(nil), sp.In...)) }
+	inStream := func() *schema.StreamReader[string] {
+		return schema.StreamReaderFromArray(append([]string(nil), sp.In...))
+	}
 	ctx := context.Background()
 	var chunks [4][]string
 	value := func(v any, err error) POut {
